@@ -14,7 +14,7 @@
    KEq   Real64 run vs Float64 run of a routine without a closed model: same values.
    KJac / KHes  the Jacobian / Hessian helpers on a catalogue of functions. *)
 From Coq Require Import List Bool Arith ZArith QArith Qabs Floats.
-From ADV Require Import Base.Num Base.Corr C06.Model C06.Model32.
+From ADV Require Import Base.Num Base.Corr C06.Model C06.Model32 C06.ModelOpt.
 Import ListNotations.
 Local Open Scope nat_scope.
 
@@ -113,7 +113,17 @@ Inductive kase :=
 (* Go ran with recycled InSitu buffers / in place; the model term is the one of the fresh run (see
    the recycled_buffers theorems of Props.v) *)
 | KDz (p : nat) (d : list nat) (k o : nat) (sq : bool) (sp : list (option nat * float)) (out : option (list slot))
-| KD32z (p : nat) (d : list nat) (k o : nat) (sq : bool) (sp : list (option nat * float)) (out : option (list slot)).
+| KD32z (p : nat) (d : list nat) (k o : nat) (sq : bool) (sp : list (option nat * float)) (out : option (list slot))
+(* round 5: option rows.  w: element width (64 / 32); md: the model of the option set is replayed at this width;
+   r o d: routine, option bits, n :: Submatrix bits (ModelOpt.opt_prog); fast: the specialised kernel on plain
+   containers; gens: every generic path that was forced on the same data (wrapper types defeating one type
+   assertion each, foreign InSitu scalar, magic containers), flagged with "square roots through math.Pow" *)
+| KO (w : nat) (md : bool) (r o : nat) (d : list nat) (inp : list float) (fast : option (list float))
+     (gens : list (bool * option (list float)))
+| KOD (w : nat) (z : bool) (r o : nat) (d : list nat) (k ord : nat) (sq : bool) (sp : list (option nat * float))
+      (out : option (list slot))
+(* the dispatch table extracted from the Go source *)
+| KDisp (r : nat) (rows : list srow).
 
 (* Float32: math.Sqrt rounded once (SQRT of cholesky_float32; the generic routines on Float32 scalars go
    through Scalar.Sqrt = Pow(x, 0.5) as well, but the Cholesky family is the only square root reached on
@@ -216,6 +226,36 @@ Definition check (c : kase) : bool :=
           (length js =? length ss) && forallb (fun p => slot_ok_z k o sq tol (fst p) (snd p)) (combine js ss)
       | _, _ => false
       end
+  | KO w md r o d inp fast gens =>
+      let m := opt_prog r o d in
+      let w32 := w =? 32 in
+      let Xf := if w32 then NumXF32fast else M5.NumXFfast in
+      let Xg := if w32 then NumXF32gen else NumXFg in
+      (if w32 then forallb is32 (if (r =? 0) && (o =? 3) then skipn 2 inp else inp) else true)
+      && (if md then opt_eqb (list_eqb feqb) (m float Xf (fun x => x) inp) fast else true)
+      (* the LDL kernels once more through the buffer-taking machines of ModelOpt.v (ProofsOptBuf: their result
+         does not depend on the prior factor buffers), so that those are tied to the Go text as well *)
+      && (if md && (r =? 0) && Nat.odd o then
+            opt_eqb (list_eqb feqb) ((if Nat.odd (o / 2) then p_fpd_fresh (nth 0 d 0) else p_ldl_fresh (nth 0 d 0)) float Xf (fun x => x) inp) fast
+          else true)
+      && forallb (fun g : bool * option (list float) =>
+                    (if md then opt_eqb (list_eqb feqb) (m float (if fst g then Xg else Xf) (fun x => x) inp) (snd g) else true)
+                    && opt_eqb (list_eqb veqb) fast (snd g)) gens
+  | KOD w z r o d k ord sq sp out =>
+      let m := opt_prog r o d in
+      let w32 := w =? 32 in
+      let J := if w32 then m (jet float) (NumXJS NumDFg r32 k ord) (jlogS NumDFg r32 k ord) (map (seed1 NumDFg k ord) sp)
+               else m (jet float) (NumXJ NumDFg k ord) (jlog NumDFg k ord) (map (seed1 NumDFg k ord) sp) in
+      (if w32 then forallb (fun e => is32 (snd e)) (if (r =? 0) && (o =? 3) then skipn 2 sp else sp) else true) &&
+      match J, out with
+      | None, None => true
+      | Some js, Some ss =>
+          let tol := ((if w32 then Qmake 1 8192 else Qmake 1 67108864) * (1 + qmaxabs (flat_map (fun s => concat (snd s)) ss)))%Q in
+          (length js =? length ss)
+          && forallb (fun p => (if z then slot_ok_z else slot_ok) k ord sq tol (fst p) (snd p)) (combine js ss)
+      | _, _ => false
+      end
+  | KDisp r rows => leqb srow_eqb rows (src_table r) && negb (length rows =? 0)
   | KEq _ a b => list_eqb veqb a b
   | KF kind n sym tol vals aux grads => formula_ok kind n sym tol vals aux grads
   | KJac fid x jac xord =>
